@@ -238,6 +238,61 @@ def structural(S, n, dim, nops, prescale, first_op):
     S.observe('len', ds.get_length())
 
 
+def derived(S, n, dim, how, prescale):
+    """A scaled set hands out derived sets (split pieces, label classes, removed samples).  Operations on a derived set must leave the parent
+    alone, and reverting the scaling of either restores the samples as they were before the scaling."""
+    ML = _ml()
+    ds, samples, labels = _make(S, n, dim)
+    orig = {}  # original row by identity of position in the parent
+    if prescale == 'range':
+        ds.scale_range((0.0, 1.0))
+    else:
+        fac0 = S.real('fac_pre')
+        S.assume(fac0 != 0)
+        ds.scale_factor(fac0)
+        sh0 = S.real('shift_pre')
+        ds.shift_value(sh0)
+    scaled_rows = [list(r) for r, _ in _pairs(ds)]
+    attrs = _attrs(ds)
+    attrs = tuple(np.array(a, dtype=object).copy() if isinstance(a, np.ndarray) else a for a in attrs)
+    if how == 'pieces':
+        parts = list(ds.split_pieces(0.5))
+        cut = round(n * 0.5)  # as DataSet.split_pieces computes it
+        index_sets = [list(range(0, cut)), list(range(cut, n))]
+    elif how == 'labels':
+        parts = list(ds.split_labels())
+        index_sets = None
+    else:  # remove one solver-chosen sample
+        i = S.choice('rm', n)
+        parts = [ds.remove_samples([i])]
+        index_sets = [[i]]
+    t = S.choice('which', len(parts))
+    part = parts[t]
+    if part.is_empty():
+        return
+    before_part = [list(r) for r, _ in _pairs(part)]
+    # which original rows does the part hold?  (identified through the scaled rows, position by position for pieces / removal)
+    if index_sets is not None:
+        want_part = [samples[j] for j in index_sets[t]]
+    else:
+        lab = int(_pairs(part)[0][1])
+        want_part = [samples[j] for j in range(n) if labels[j] == lab]
+    part.revert_scaling()
+    after_part = [list(r) for r, _ in _pairs(part)]
+    S.prove(_same_attrs(S, _attrs(ds), attrs), 'derived:reverting-a-derived-set-leaves-the-parent-scaling-attributes-unchanged')
+    S.prove(len(after_part) == len(want_part) and sym_and(*[S.eq(after_part[i][k], want_part[i][k]) for i in range(len(want_part)) for k in range(dim)]),
+            'derived:revert-on-a-derived-set-restores-its-original-samples')
+    rest = [list(r) for r, _ in _pairs(ds)]
+    keep = [j for j in range(n) if not (how == 'remove' and j == index_sets[0][0])]
+    S.prove(len(rest) == len(keep) and sym_and(*[S.eq(rest[i][k], scaled_rows[j][k]) for i, j in enumerate(keep) for k in range(dim)]),
+            'derived:reverting-a-derived-set-leaves-the-parent-samples-unchanged')
+    if not ds.is_empty():
+        ds.revert_scaling()
+        back = [list(r) for r, _ in _pairs(ds)]
+        S.prove(sym_and(*[S.eq(back[i][k], samples[j][k]) for i, j in enumerate(keep) for k in range(dim)]),
+                'derived:parent-revert-afterwards-restores-the-original-samples')
+
+
 def _pairs_equal(S, a, b):
     if len(a) != len(b):
         return False
@@ -328,6 +383,11 @@ def jobs(tier):
                     js.append(Job('structural[n=%d,dim=%d,ops=%d,%s,first=%d]' % (n, dim, nops, prescale, first_op), structural,
                                   {'n': n, 'dim': dim, 'nops': nops, 'prescale': prescale, 'first_op': first_op},
                                   extra_shims=extra, validate=(9 if q else 4), budget_s=(600 if q else 3000)))
+        for n in ((2, 3) if (q and dim == 1) else ((2,) if q else (2, 3))):
+            for how in ('pieces', 'labels', 'remove'):
+                for prescale in ('range', 'factor+shift'):
+                    js.append(Job('derived[n=%d,dim=%d,%s,pre=%s]' % (n, dim, how, prescale), derived, {'n': n, 'dim': dim, 'how': how, 'prescale': prescale},
+                                  extra_shims=extra, validate=(3 if q else 1), budget_s=(600 if q else 3000), timeout_ms=30000))
         for kind in ('unscaled', 'scaled-vs-unscaled', 'different-range', 'different-factor', 'same-factor'):
             js.append(Job('concat[dim=%d,%s]' % (dim, kind), concat_refused, {'dim': dim, 'kind': kind}, extra_shims=extra, validate=(3 if q else 1)))
     return js
